@@ -1,7 +1,7 @@
 #!/venv/bin/python -SE
 """Fake external MSA programs for C20.  The personality is the name the script is
 invoked as (clustalo / muscle3 / muscle5 / mafft / echo); the behaviour is taken
-from $VF_FAKE_MODE: ok | reorder | exit3 | hang | garbage | missing | notree.
+from $VF_FAKE_MODE: ok | reorder | exit3 | hang | garbage | missing | notree | killed11 | killed9.
 The 'alignment' is deterministic: every sequence right-padded with '-' to the
 longest one (left-padded for odd indices when VF_FAKE_PAD=alt)."""
 import os
@@ -20,6 +20,13 @@ if log:
 if name.startswith("muscle") and argv[:1] == ["-version"]:
     print("MUSCLE v3.8.31 by Robert C. Edgar" if name == "muscle3" else "muscle 5.1.linux64 [12f0e2]")
     sys.exit(0)
+
+
+def die_by_signal():
+    """valid output was written, then the program dies from a signal (negative return code for the parent)"""
+    import signal
+    sys.stdout.flush()
+    os.kill(os.getpid(), signal.SIGKILL if mode == "killed9" else signal.SIGSEGV)
 
 
 def read_fasta(path):
@@ -45,6 +52,8 @@ if name == "echo":
         sys.stderr.write("simulated failure\n")
         sys.exit(3)
     sys.stdout.write("ECHO " + " ".join(argv) + "\n")
+    if mode.startswith("killed"):
+        die_by_signal()
     sys.exit(0)
 
 if name == "clustalo":
@@ -115,4 +124,6 @@ if tree and mode != "notree":
         if t2:
             with open(t2, "w") as f:
                 f.write(nw + "\n")
+if mode.startswith("killed"):
+    die_by_signal()
 sys.exit(0)
